@@ -53,6 +53,14 @@ def arrays(np, rnd):
             yield a[..., ::2] if a.shape[-1] > 1 else a
 
 
+def subclass_arrays(np):
+    import warnings as _w
+    with _w.catch_warnings():
+        _w.simplefilter("ignore")
+        yield np.matrix([[1, 2, 3], [4, 5, 6]], dtype="<i4")
+        yield np.matrix([[0.5]], dtype="<f8")
+
+
 def main(budget):
     import numpy as np
     import joblib
@@ -63,7 +71,7 @@ def main(budget):
     root = tempfile.mkdtemp(prefix="pyvc_c19_")
     comps = [0, ("zlib", 3), ("gzip", 1), ("bz2", 3), ("lzma", 1), ("xz", 1)] if budget == "large" else [0, ("zlib", 3), ("xz", 1)]
     try:
-        for a in arrays(np, rnd):
+        for a in itertools.chain(arrays(np, rnd), subclass_arrays(np)):
             for comp in comps:
                 cases += 1
                 path = os.path.join(root, "a.pkl")
@@ -111,6 +119,38 @@ def main(budget):
                     del got, m
                     if open(path, "rb").read() != before:
                         return dict(violation=True, cases=cases, what="loading with mmap_mode=%r modified the file" % mode, witness=dict(dtype=str(a.dtype), shape=a.shape))
+        # views on a user memmap handed to workers: the pickling reduction used by the process backends (forward and backward
+        # reducers call _reduce_memmap_backed) must rebuild exactly the same elements.  Each view runs in a child process because a
+        # wrong reconstruction can read outside the mapping.
+        import subprocess
+        child = (
+            "import sys, os, numpy as np\n"
+            "from joblib._memmapping_reducer import _reduce_memmap_backed, _get_backing_memmap\n"
+            "fn, order, expr = sys.argv[1], sys.argv[2], sys.argv[3]\n"
+            "m = np.memmap(fn, dtype=np.int64, shape=(5, 6), order=order, mode='r+')\n"
+            "a = eval(expr)\n"
+            "bm = _get_backing_memmap(a)\n"
+            "if bm is None: print('SAME (a copy, not a view)'); sys.exit(0)\n"
+            "f, args = _reduce_memmap_backed(a, bm)\n"
+            "b = f(*args)\n"
+            "ok = a.shape == b.shape and np.array_equal(np.asarray(a), np.asarray(b))\n"
+            "print('SAME' if ok else 'DIFFERENT %r -> %r' % (np.asarray(a).ravel().tolist()[:8], np.asarray(b).ravel().tolist()[:8]))\n")
+        exprs = ["m", "m.T", "m[1:]", "m[:, 1:4]", "m[::2]", "m[:, ::2]", "m[1:4, 2:5]", "m.T[1:]", "m.T[:, 1:3]", "m[2]", "m[:, 3]", "m[1:2, 2:3].reshape(())",
+                 "m[::-1]", "m[:, ::-1]", "m[1:4, 4:1:-1]", "m.ravel(order='K')[::-1]", "m.T[::-1]", "m[3:0:-2, ::3]", "m.reshape(-1)[3:20].reshape(17)"]
+        for order in ("C", "F"):
+            fn = os.path.join(root, "user_%s.mmap" % order)
+            mm = np.memmap(fn, dtype=np.int64, shape=(5, 6), order=order, mode="w+")
+            mm[:] = np.arange(30).reshape(5, 6)
+            mm.flush()
+            del mm
+            for expr in exprs:
+                cases += 1
+                pr = subprocess.run([sys.executable, "-c", child, fn, order, expr], capture_output=True, text=True, timeout=120)
+                line = (pr.stdout.strip().splitlines() or [""])[-1]
+                if pr.returncode != 0 or not line.startswith("SAME"):
+                    what = ("view %s of a %s-ordered memmap is rebuilt with other elements in the worker: %s" % (expr, order, line)) if pr.returncode == 0 else \
+                           ("rebuilding the view %s of a %s-ordered memmap crashed the process (exit code %d) %s" % (expr, order, pr.returncode, pr.stderr.strip().splitlines()[-1:]))
+                    return dict(violation=True, cases=cases, what=what, witness=dict(memmap_order=order, view=expr, shape=[5, 6], dtype="int64"))
         # K7 probe
         path = os.path.join(root, "k7.pkl")
         be = np.arange(4, dtype=">i4" if sys.byteorder == "little" else "<i4")
